@@ -369,3 +369,274 @@ Section StatefulSpec.
   Definition rpkgs_render (s : rsnip) : list bytes :=
     if risnil_of leaf raw leaf_isnil s then [] else rpkgs s.
 End StatefulSpec.
+
+(* ------------------------------------------------------------------------------------------ *)
+(* Part 3 — the leaves: C10's ValueLit and C11's ident.Frag / TypeLit against the tracker state  *)
+(* ------------------------------------------------------------------------------------------ *)
+Require Gengo.Model.ValueLit.
+Module VL := Gengo.Model.ValueLit.
+
+(* what github.com/octohelm/x/types.FromRType shows of a reflect.Type of C10's universe: the bridge from C10's
+   [gotype] to the [tyview] C11's TypeLit consumes (no tags, no embedded fields in that universe) *)
+Fixpoint gview (t : VL.gotype) : TL.tyview :=
+  match t with
+  | VL.TNamed p n _ => TL.VNamed p n
+  | VL.TPtr e => TL.VPtr (gview e)
+  | VL.TSlice e => TL.VSlice (gview e)
+  | VL.TArray n e => TL.VArray (N.of_nat n) (gview e)
+  | VL.TMap k e => TL.VMap (gview k) (gview e)
+  | VL.TStruct fs =>
+      TL.VStruct ((fix go (l : list (bytes * VL.gotype)) : TL.vfields :=
+                     match l with
+                     | [] => TL.VFNil
+                     | f :: r => TL.VFCons (fst f) false (gview (snd f)) [] (go r)
+                     end) fs)
+  | _ => TL.VOther (VL.kind_name t)
+  end.
+
+(* the packages named in a type literal of C10, left to right = the order Dumper.TypeLit asks the namer *)
+Fixpoint ty_pkgs (t : VL.tyast) : list bytes :=
+  match t with
+  | VL.YName p _ => [p]
+  | VL.YPtr e | VL.YSlice e | VL.YArray _ e => ty_pkgs e
+  | VL.YMap k e => ty_pkgs k ++ ty_pkgs e
+  | VL.YStruct fs => flat_map (fun f => ty_pkgs (snd f)) fs
+  end.
+
+(* ... and in a value literal, in textual order *)
+Fixpoint lit_pkgs (l : VL.lit) : list bytes :=
+  match l with
+  | VL.LAddr x => lit_pkgs x
+  | VL.LPtrClosure ty a => ty_pkgs ty ++ lit_pkgs a
+  | VL.LComposite ty es => ty_pkgs ty ++ flat_map (fun e => lit_pkgs (fst e) ++ lit_pkgs (snd e)) es
+  | _ => []
+  end.
+
+Definition all2 {A B} (f : A -> B -> bool) : list A -> list B -> bool :=
+  fix go (ts : list A) (vs : list B) {struct vs} : bool :=
+    match vs, ts with
+    | x :: vr, t :: tr => f t x && go tr vr
+    | _, _ => true
+    end.
+
+Definition cat2 {A B C} (f : A -> B -> list C) : list A -> list B -> list C :=
+  fix go (ts : list A) (vs : list B) {struct vs} : list C :=
+    match vs, ts with
+    | x :: vr, t :: tr => f t x ++ go tr vr
+    | _, _ => []
+    end.
+
+(* entries sorted by key text (stable insertion sort, the order sort.Strings gives the keys) *)
+Fixpoint insert_kv {A} (e : bytes * A) (l : list (bytes * A)) : list (bytes * A) :=
+  match l with
+  | [] => [e]
+  | y :: r => if VL.bytes_leb (fst e) (fst y) then e :: l else y :: insert_kv e r
+  end.
+Definition sort_kv {A} (l : list (bytes * A)) : list (bytes * A) := fold_right insert_kv [] l.
+
+Section Leaves.
+  Context {F : Type}.
+  Variable fzero : F -> bool.
+  Variables ffmt gfmt : VL.fkind -> F -> bytes.
+  Variable fbig : F -> bool.
+  Variable quote : bytes -> bytes.                     (* strconv.Quote *)
+  Variable can_backquote : bytes -> bool.              (* strconv.CanBackquote *)
+  Variable pick : bytes -> TL.renv -> option bytes.    (* the tracker: [pick_c03 pre std] *)
+  Variable self : bytes.                               (* rawNamer.pkgPath *)
+  (* [fx6 = true]: with fixes/C10-6-zero-struct-import.diff — a struct that renders as nothing (SubValue, no field
+     rendered) no longer asks for its type literal; [false]: the code before (the package of the struct's type, and
+     of its field types if it is unnamed, is imported although the text does not mention it) *)
+  Variable fx6 : bool.
+
+  Notation renv := TL.renv.
+  Notation goval := (VL.goval F).
+
+  Definition is_foreign (p : bytes) : bool := negb (is_nil p) && negb (bytes_eqb p self).
+
+  (* C10's [local]: the qualifier a package path is printed with *)
+  Definition local_of (e : renv) (p : bytes) : bytes := if is_foreign p then TL.local_name_of p e else [].
+  Definition no_local (_ : bytes) : bytes := [].
+
+  Definition vlit (local : bytes -> bytes) := @VL.value_lit F fzero ffmt gfmt fbig quote local true.
+
+  (* the helper of the repair: ValueLit(rv, SubValue(true)) is the empty text *)
+  Fixpoint renders_nothing (t : VL.gotype) (v : goval) {struct v} : bool :=
+    match v with
+    | VL.VStruct vs =>
+        match VL.under t with
+        | VL.TStruct fs =>
+            all2 (fun (f : bytes * VL.gotype) (x : goval) =>
+                    negb (VL.is_exported (fst f)) || VL.is_empty fzero x || renders_nothing (snd f) x) fs vs
+        | _ => false
+        end
+    | _ => false
+    end.
+
+  Definition key_text (kt : VL.gotype) (k : goval) : bytes :=
+    match vlit no_local false kt k with
+    | Ok kl => VL.print_lit quote no_local kl
+    | _ => []
+    end.
+
+  (* the package paths Dumper.ValueLit hands to the namer (through TypeLit), in call order: the type literal of a
+     composite first, then its parts; map keys (in the given order), then the map values in the order of the key texts *)
+  Fixpoint value_regs (sub : bool) (t : VL.gotype) (v : goval) {struct v} : list bytes :=
+    match v with
+    | VL.VPtr x =>
+        match VL.under t with
+        | VL.TPtr e =>
+            if VL.basic_kind true (VL.under e) then ty_pkgs (VL.type_lit e) ++ value_regs sub e x
+            else value_regs false e x
+        | _ => []
+        end
+    | VL.VStruct vs =>
+        match VL.under t with
+        | VL.TStruct fs =>
+            if fx6 && sub && renders_nothing t v then []
+            else ty_pkgs (VL.type_lit t)
+                 ++ cat2 (fun (f : bytes * VL.gotype) (x : goval) =>
+                            if VL.is_exported (fst f) && negb (VL.is_empty fzero x) then value_regs true (snd f) x else [])
+                      fs vs
+        | _ => []
+        end
+    | VL.VMap _ m =>
+        match VL.under t with
+        | VL.TMap kt et =>
+            ty_pkgs (VL.type_lit t)
+            ++ flat_map (fun kv => value_regs false kt (fst kv)) m
+            ++ concat (map snd (sort_kv (map (fun kv => (key_text kt (fst kv), value_regs false et (snd kv))) m)))
+        | _ => []
+        end
+    | VL.VSlice _ l =>
+        match VL.under t with
+        | VL.TSlice e => ty_pkgs (VL.type_lit t) ++ flat_map (value_regs false e) l
+        | _ => []
+        end
+    | VL.VArray l =>
+        match VL.under t with
+        | VL.TArray _ e => ty_pkgs (VL.type_lit t) ++ flat_map (value_regs false e) l
+        | _ => []
+        end
+    | _ => []
+    end.
+
+  Definition add_all (ps : list bytes) (e : renv) : renv := fold_left (fun e p => TL.tr_add pick p e) ps e.
+
+  (* snippet.Value(x).Frag / %v: the literal is C10's, printed with the names of the tracker AFTER the packages of its
+     type literals were registered (a name, once handed out, never changes: Proofs C03 stability) *)
+  Definition value_frag (t : VL.gotype) (v : goval) : rs renv :=
+    fun e =>
+      let e' := add_all (filter is_foreign (value_regs false t v)) e in
+      let! l := vlit (local_of e') false t v in
+      Ok (VL.print_lit quote (local_of e') l, e').
+
+  (* snippet.ID(x).Frag / %T / PkgExpose: C11's model, text = the printed tree *)
+  Definition id_frag (x : TL.idarg) : rs renv :=
+    fun e =>
+      let! (a, e') := TL.ident_frag pick parse_c15 self can_backquote true true x e in
+      Ok (TL.print quote a, e').
+
+  Inductive leaf :=
+  | LValue (x : option (VL.gotype * goval))      (* snippet.Value(x); None = Value(nil) *)
+  | LID (x : option TL.idarg)                    (* snippet.ID(x);    None = ID(nil) *)
+  | LExpose (p n : bytes).                       (* snippet.PkgExpose(p, n) *)
+
+  Inductive rawarg :=
+  | AVal (t : VL.gotype) (v : goval)             (* a Go value of C10's universe (a string is also a reference for %T) *)
+  | ANil                                         (* untyped nil *)
+  | AType (x : TL.idarg).                        (* reflect.Type / types.Type / TypeName: meant for %T *)
+
+  Definition leaf_isnil (l : leaf) : bool :=
+    match l with LValue None | LID None => true | _ => false end.
+
+  Definition leaf_frag (l : leaf) : rs renv :=
+    match l with
+    | LValue (Some (t, v)) => value_frag t v
+    | LValue None => ret_st renv (bs "nil")      (* ValueLit(nil): !rv.IsValid() *)
+    | LID (Some x) => id_frag x
+    | LID None => panic_st renv                  (* ident.Frag: default branch, "unspported <nil>" *)
+    | LExpose p n => id_frag (TL.IdName p n [])
+    end.
+
+  Definition raw_v (a : rawarg) : rs renv :=
+    match a with
+    | AVal t v => value_frag t v
+    | ANil => ret_st renv (bs "nil")
+    | AType _ => panic_st renv                   (* NOT MODELLED: ValueLit of a reflect.Type / types.Type value *)
+    end.
+
+  Definition raw_t (a : rawarg) : rs renv :=
+    match a with
+    | AVal VL.TString (VL.VStr s) => id_frag (TL.IdStr s)     (* ident.Frag: case string *)
+    | AVal _ _ => panic_st renv                               (* "unspported <type>" *)
+    | ANil => panic_st renv
+    | AType x => id_frag x
+    end.
+
+  (* ---- the packages a leaf refers to, read off the leaf alone ---- *)
+  Definition value_pkgs (t : VL.gotype) (v : goval) : list bytes :=
+    match vlit no_local false t v with
+    | Ok l => filter is_foreign (lit_pkgs l)
+    | _ => []
+    end.
+
+  Definition leaf_value_regs (t : VL.gotype) (v : goval) : list bytes := filter is_foreign (value_regs false t v).
+
+  (* the term language and its rendering: everything above plugged into the generic part *)
+  Definition csnip := rsnip leaf rawarg.
+  Definition crender : csnip -> rs renv := rrender renv leaf rawarg leaf_isnil leaf_frag raw_v raw_t.
+  Definition crender_all : list csnip -> rs renv := rrender_all renv leaf rawarg leaf_isnil leaf_frag raw_v raw_t.
+  Definition cerase : renv -> csnip -> Sn.snip := erase renv leaf rawarg leaf_isnil leaf_frag raw_v raw_t.
+End Leaves.
+
+(* ---- the package paths ident.Frag hands to AddType, in call order, read off the argument alone ---- *)
+Section IdRegs.
+  Variable self : bytes.
+  Variable parse : bytes -> option TL.tref.
+
+  (* processName's Walk: pre-order; own package and path-less nodes are not registered *)
+  Fixpoint tref_regs (t : TL.tref) : list bytes :=
+    match t with
+    | TL.TRef pkg _ args =>
+        (if is_nil pkg then [] else if bytes_eqb pkg self then [] else [pkg]) ++ trefs_regs args
+    end
+  with trefs_regs (l : TL.trefs) : list bytes :=
+    match l with
+    | TL.TRNil => []
+    | TL.TRCons t r => tref_regs t ++ trefs_regs r
+    end.
+
+  (* rawNamer.Name: the type arguments first, then the type's own package *)
+  Definition name_regs (pkg name : bytes) : list bytes :=
+    match parse name with
+    | None => []
+    | Some (TL.TRef _ _ TL.TRNil) => []
+    | Some t => tref_regs t
+    end ++ (if bytes_eqb pkg self then [] else [pkg]).
+
+  Fixpoint view_regs (v : TL.tyview) : list bytes :=
+    match v with
+    | TL.VNamed p n => name_regs p n
+    | TL.VPtr x | TL.VChan x | TL.VArray _ x | TL.VSlice x => view_regs x
+    | TL.VMap k x => view_regs k ++ view_regs x
+    | TL.VStruct fs => fields_regs fs
+    | TL.VIface _ | TL.VOther _ => []
+    end
+  with fields_regs (fs : TL.vfields) : list bytes :=
+    match fs with
+    | TL.VFNil => []
+    | TL.VFCons _ _ t _ rest => view_regs t ++ fields_regs rest
+    end.
+
+  Definition idarg_regs (x : TL.idarg) : list bytes :=
+    match x with
+    | TL.IdAlias s | TL.IdStr s =>
+        match TL.parse_ref s with
+        | None => []
+        | Some (p, n) => name_regs p n
+        end
+    | TL.IdName p n _ => name_regs p n
+    | TL.IdR v | TL.IdT v => view_regs v
+    | TL.IdOther => []
+    end.
+End IdRegs.
